@@ -260,6 +260,14 @@ func (V *Verifier) solveOne(o *Obligation, opt solveOpts) {
 	if short < time.Second {
 		short = time.Second
 	}
+	switch o.Kind {
+	case "nil", "bounds", "slice", "div0", "shift", "assert-type", "conv-len", "make-len", "nilmap", "panic", "model":
+		// run-time-check obligations are simple facts: if they do not discharge quickly they
+		// will not discharge at all; keep sweeps over large handlers affordable
+		if opt.timeout > 2*short {
+			opt.timeout = 2 * short
+		}
+	}
 	if o.Cover {
 		for _, cfg := range []solverCfg{cfgZ3New, cfgCvc5} {
 			res, out, _ := runSolver(cfg, file, opt.timeout, opt.seed)
